@@ -32,7 +32,7 @@ ASSUMPTIONS = [
 ]
 TOLERANCES = {"straight edges": "1e-12 * S", "curved edges": "1e-9 * S", "through d()": "2e-11 * S (lines), 1e-5 * S (arcs)"}
 RX_CELLS = ["omitted", "zero", "normal", "over", "percent"]
-MANDATORY_LABELS = {"quick": ["kind:%s" % k for k in ("rect", "circle", "ellipse", "line", "polyline", "polygon")] + ["route:kw", "route:args", "route:dict", "degenerate", "history:reify", "history:matmul"] + ["rxry:%s/%s" % (a, b) for a in RX_CELLS for b in RX_CELLS if not (a == "percent" and b == "percent")]}
+MANDATORY_LABELS = {"quick": ["kind:%s" % k for k in ("rect", "circle", "ellipse", "line", "polyline", "polygon")] + ["route:kw", "route:args", "route:dict", "degenerate", "history:reify", "history:matmul", "route:center="] + ["rxry:%s/%s" % (a, b) for a in RX_CELLS for b in RX_CELLS if not (a == "percent" and b == "percent")]}
 MANDATORY_LABELS["thorough"] = MANDATORY_LABELS["quick"]
 
 
@@ -86,6 +86,7 @@ def decode(d):
         a = {"points": pts}
     case = {"kind": kind, "attrs": a, "cells": cells, "route": d.choice(["kw", "args", "dict"]), "A": gen.matrix(d)}
     case["history"] = d.choice([None, "reify", "matmul"])
+    case["center_form"] = d.choice([None, "tuple", "text", "point", "complex"]) if kind in ("circle", "ellipse") else None
     return case
 
 
@@ -115,6 +116,13 @@ def build(case):
     if route == "dict":
         return cls({k: fmt(v) for k, v in a.items()})
     if route == "kw":
+        if kind in ("circle", "ellipse") and case.get("center_form"):
+            # the documented center= keyword, in each form a Point accepts
+            rest = dict((k, v) for k, v in a.items() if k not in ("cx", "cy"))
+            c = (a["cx"], a["cy"])
+            form = case["center_form"]
+            center = c if form == "tuple" else ("%r,%r" % c) if form == "text" else se.Point(*c) if form == "point" else complex(*c)
+            return cls(center=center, **rest)
         return cls(**a)
     if kind == "rect":
         args = [a["x"], a["y"], a["width"], a["height"]]
@@ -252,6 +260,8 @@ def check(case):
     o.label("kind:%s" % kind, "route:%s" % case["route"], "mat:%s" % case["A"]["cls"])
     if case["cells"]:
         o.label("rxry:%s/%s" % tuple(case["cells"]))
+    if case.get("center_form") and case["route"] == "kw":
+        o.label("route:center=")
     A = case["A"]["m"]
     mA = lib.mk_matrix(A)
     shape = build(case)
